@@ -131,6 +131,82 @@ theorem tbsSig_eq_rfc (s : SigV) (bodyProtected : Bytes) (payload ext : Option B
   simp only [Signature.toBeSigned, hp, Out.bind_ok, detBstr_spec _ _ hb hblen,
     detBstr_spec _ _ hs hslen, hpl, optBytesEnc, detEnc_sigStructure, encBstr_eq_detEnc]
 
+/-! ### prefix-freeness and binding -/
+
+theorem shortest_fits {n : Nat} (h : n < 18446744073709551616) : (HW.shortest n).fits n = true := by
+  by_cases h1 : n < 24
+  · rw [shortest_imm h1]; simpa [HW.fits] using h1
+  by_cases h2 : n < 256
+  · rw [shortest_w1 (by omega) h2]; simpa [HW.fits] using h2
+  by_cases h3 : n < 65536
+  · rw [shortest_w2 (by omega) h3]; simpa [HW.fits] using h3
+  by_cases h4 : n < 4294967296
+  · rw [shortest_w4 (by omega) h4]; simpa [HW.fits] using h4
+  rw [shortest_w8 (by omega)]; simpa [HW.fits] using h
+
+theorem detEnc_bstr_inj (a b : Bytes) (ha : a.length < 2^64) (hb : b.length < 2^64) (r r' : Bytes)
+    (h : detEnc (.bstr a) ++ r = detEnc (.bstr b) ++ r') : a = b ∧ r = r' := by
+  have ha' : a.length < 18446744073709551616 := by omega
+  have hb' : b.length < 18446744073709551616 := by omega
+  have hw := wire_bytes_append_inj (t := false)
+    (w := .bstr (HW.shortest a.length) a) (w' := .bstr (HW.shortest b.length) b) (r := r) (r' := r')
+    (by simpa [Wire.wf] using shortest_fits ha') (by simpa [Wire.wf] using shortest_fits hb')
+    (by simp [Wire.inLimits]) (by simp [Wire.inLimits])
+    (by simpa [Wire.bytes, detEnc, detHead] using h)
+  exact ⟨(Wire.bstr.inj hw.1).2, hw.2⟩
+
+theorem detEnc_tstr_inj (a b : Bytes) (ha : a.length < 2^64) (hb : b.length < 2^64) (r r' : Bytes)
+    (h : detEnc (.tstr a) ++ r = detEnc (.tstr b) ++ r') : a = b ∧ r = r' := by
+  have ha' : a.length < 18446744073709551616 := by omega
+  have hb' : b.length < 18446744073709551616 := by omega
+  have hw := wire_bytes_append_inj (t := false)
+    (w := .tstr (HW.shortest a.length) a) (w' := .tstr (HW.shortest b.length) b) (r := r) (r' := r')
+    (by simpa [Wire.wf] using shortest_fits ha') (by simpa [Wire.wf] using shortest_fits hb')
+    (by simp [Wire.inLimits]) (by simp [Wire.inLimits])
+    (by simpa [Wire.bytes, detEnc, detHead] using h)
+  exact ⟨(Wire.tstr.inj hw.1).2, hw.2⟩
+
+/-- a signature binds the protected bytes, the external data and the payload -/
+theorem sig1_binding (c e p c' e' p' : Bytes)
+    (hc : c.length < 2^64) (he : e.length < 2^64) (hp : p.length < 2^64)
+    (hc' : c'.length < 2^64) (he' : e'.length < 2^64) (hp' : p'.length < 2^64)
+    (h : detEnc (sigStructure1 c e p) = detEnc (sigStructure1 c' e' p')) :
+    c = c' ∧ e = e' ∧ p = p' := by
+  simp only [detEnc_sigStructure1, encBstr_eq_detEnc] at h
+  have h1 := List.append_cancel_left (List.append_cancel_left h)
+  obtain ⟨rfl, h2⟩ := detEnc_bstr_inj c c' hc hc' _ _ h1
+  obtain ⟨rfl, h3⟩ := detEnc_bstr_inj e e' he he' _ _ h2
+  have h4 : detEnc (.bstr p) ++ [] = detEnc (.bstr p') ++ [] := by simpa using h3
+  obtain ⟨rfl, -⟩ := detEnc_bstr_inj p p' hp hp' _ _ h4
+  exact ⟨rfl, rfl, rfl⟩
+
+theorem sig_binding (c s e p c' s' e' p' : Bytes)
+    (hc : c.length < 2^64) (hs : s.length < 2^64) (he : e.length < 2^64) (hp : p.length < 2^64)
+    (hc' : c'.length < 2^64) (hs' : s'.length < 2^64) (he' : e'.length < 2^64)
+    (hp' : p'.length < 2^64)
+    (h : detEnc (sigStructure c s e p) = detEnc (sigStructure c' s' e' p')) :
+    c = c' ∧ s = s' ∧ e = e' ∧ p = p' := by
+  simp only [detEnc_sigStructure, encBstr_eq_detEnc] at h
+  have h1 := List.append_cancel_left (List.append_cancel_left h)
+  obtain ⟨rfl, h2⟩ := detEnc_bstr_inj c c' hc hc' _ _ h1
+  obtain ⟨rfl, h2'⟩ := detEnc_bstr_inj s s' hs hs' _ _ h2
+  obtain ⟨rfl, h3⟩ := detEnc_bstr_inj e e' he he' _ _ h2'
+  have h4 : detEnc (.bstr p) ++ [] = detEnc (.bstr p') ++ [] := by simpa using h3
+  obtain ⟨rfl, -⟩ := detEnc_bstr_inj p p' hp hp' _ _ h4
+  exact ⟨rfl, rfl, rfl, rfl⟩
+
+theorem encHead_4_4 : encHead 4 4 = [0x84] := by decide
+theorem encHead_4_5 : encHead 4 5 = [0x85] := by decide
+theorem encHead_4_6 : encHead 4 6 = [0x86] := by decide
+
+/-- a Sign1 ToBeSigned is never a Sign-signer ToBeSigned (array of 4 vs array of 5) -/
+theorem kinds_separated (c e p c2 s2 e2 p2 : Bytes) :
+    detEnc (sigStructure1 c e p) ≠ detEnc (sigStructure c2 s2 e2 p2) := by
+  intro h
+  simp only [detEnc_sigStructure1, detEnc_sigStructure, encHead_4_4, encHead_4_5,
+    List.cons_append, List.nil_append] at h
+  exact absurd (List.cons.inj h).1 (by decide)
+
 end C02
 
 namespace C10
